@@ -401,7 +401,8 @@ def split_blocks(decls):
     return blocks
 
 
-FILE_NAMES = ["main.sysl", "part1.sysl", "part2.sysl", "part3.sysl"]
+# (names on both sides of "main.sysl" in alphabetical order: the order of compilation is not the order of the names)
+FILE_NAMES = ["main.sysl"] + [("part%d.sysl" if i % 2 else "an%d.sysl") % i for i in range(1, 40)]
 
 
 def apply_plan(decls, plan):
@@ -436,6 +437,23 @@ def split_scenarios(ctx, n, seed_off, maxplans):
             scn.append({"id": sid, "decls": apply_plan(g["decls"], plan), "seed": ctx.seed,
                         "variants": 0, "text": False, "plan": plan, "program": gi})
             group.setdefault(gi, []).append(sid)
+        if gi % 3 == 0:
+            # a wide fan-out: every block in a file of its own, all imported by the root one after the other (the program
+            # is padded with small applications to at least thirteen blocks; the joined form has the same padding)
+            nopos = {"file": "", "line": 0, "col": 0}
+            padded = list(g["decls"])
+            for k in range(max(0, 13 - nb)):
+                padded += [{"k": "app", "name": "Pad%d" % k, "long": "", "tags": [], "attrs": [], "pos": nopos},
+                           {"k": "ep", "name": "Ep", "long": "", "params": [], "tags": [], "attrs": [], "pos": nopos},
+                           {"k": "stmt", "kind": "action", "text": "do it", "tags": [], "attrs": [], "pos": nopos},
+                           {"k": "end"}, {"k": "end"}]
+            n = len(split_blocks(padded))
+            wide = {"files": list(range(n)), "imports": [list(range(1, n))] + [[] for _ in range(n - 1)], "order": list(range(n))}
+            key = "wide%d" % gi
+            for plan in ({"files": [0] * n, "imports": [[]], "order": [0]}, wide):
+                sid = len(scn) + 1
+                scn.append({"id": sid, "decls": apply_plan(padded, plan), "seed": ctx.seed, "variants": 0, "text": False, "plan": plan, "program": gi})
+                group.setdefault(key, []).append(sid)
     return gen, scn, group
 
 
@@ -462,7 +480,7 @@ def check_c04(ctx):
                 lost, extra = sorted(a - b)[:3], sorted(b - a)[:3]
                 kinds = sorted({x[0] for x in (a - b)} | {x[0] for x in (b - a)})
                 core.add_violation(ctx, "C04/SplitDiffers/" + "+".join(kinds),
-                                   "program %d: partition %s differs from the joined form: lost %s, extra %s" %
+                                   "program %s: partition %s differs from the joined form: lost %s, extra %s" %
                                    (gi, by_id[sid]["plan"], lost, extra),
                                    {"family": "frontend", "scenario": by_id[sid], "joined": by_id[ids[0]]})
     cov = {"states": mc.distinct, "transitions": mc.generated, "traces_validated_against_impl": len(scn),
@@ -472,5 +490,5 @@ def check_c04(ctx):
            "samples": [{"plan": scn[1]["plan"], "decls": scn[1]["decls"][:10]}] if len(scn) > 1 else []}
     return core.finish(ctx, "model_checking", cov, ASSUME + [
         "partitions move whole top-level blocks (re-opened applications with their types, endpoints, REST trees, events) between "
-        "up to four files in star, chain, nested, diamond and cyclic import graphs (the file order is FileOrder of FrontendGen.tla: depth-first, each file once); blocks that append to the same statement list keep their relative order",
+        "up to four files in star, chain, nested, diamond and cyclic import graphs (the file order is FileOrder of FrontendGen.tla: depth-first, each file once), and for every third program one file per block, thirteen or more, all imported by the root; blocks that append to the same statement list keep their relative order",
         "fields of one tuple/table are split when the generator re-opens the type in a later block"])
